@@ -465,6 +465,21 @@ def replay(rec, path, quiet=False):
         if not quiet:
             print(f"replay of {path}: no violation")
         return 0, {"type": "ok"}
+    if rec.get("engine") == "hugeadopt":
+        r = subprocess.run([D.BIN2, "huge", "--max-pow", "0", "--adopt-pow", str(rec.get("adopt_pow", 24))], stdout=subprocess.PIPE, stderr=subprocess.DEVNULL)
+        aj = next((json.loads(l) for l in r.stdout.decode(errors="replace").splitlines() if l.startswith("{")), None)
+        bad = aj is None and r.returncode < 0 or aj is not None and any(c["destroyed"] != 2 or c["count_errors"] for c in aj["adopt_cases"])
+        if aj is None and r.returncode >= 0:
+            D.eprint("HARNESS-ERROR hugeadopt replay produced no result")
+            return 2, {}
+        if bad:
+            if not quiet:
+                print(f"violation kind=not-collected cause=huge-parallel-adoptions msg={aj['adopt_cases'] if aj else 'process died'}")
+                print(f"VIOLATION property={rec['property']} replay={path}")
+            return 1, {"type": "violation", "kind": "not-collected", "cause": "huge-parallel-adoptions", "props": [rec["property"]]}
+        if not quiet:
+            print(f"replay of {path}: no violation")
+        return 0, {"type": "ok"}
     if rec.get("engine") == "huge":
         r = subprocess.run([D.BIN2, "huge", "--max-pow", str(rec.get("max_pow", 32))], stdout=subprocess.PIPE, stderr=subprocess.DEVNULL)
         hj = next((json.loads(l) for l in r.stdout.decode(errors="replace").splitlines() if l.startswith("{")), None)
